@@ -52,6 +52,104 @@ def after_all_ok(b, pos, partners, cut=frozenset()):
     return bool(partners) and bool(exits) and must_pass(b, pos, exits, through, avoid_edges=cut, include_start=False)
 
 
+def dev_map_rules(C, P, RI, RR, lb=None):
+    """insert / remove discipline of the referrer map (shared: C05, and C06 whose rename/move rewriting relies on complete lists)"""
+    # ---- DEV-insert -------------------------------------------------------------------------------
+    n = 0
+    for b in sorted(P.bodies.values(), key=lambda x: x.short):
+        if b.crate != 'autosar_data':
+            continue
+        ops = E.reforig_ops(b)
+        for o in ops:
+            if o['how'] == 'direct' and o['op'] == 'entry':
+                # entry(k).or_default() / or_insert_with(..) keep an existing list; Entry::insert / insert_entry replace it
+                n += 1
+                tl = forward_taint(b, {o['term']['dst']['l']}, through_refs=True)
+                repl = [p2 for p2, t2 in b.iter_calls() if call_matches(t2, r'Entry<.*>::(insert|insert_entry)$|Entry::<.*>::(insert|insert_entry)$') and t2['args'] and is_local_op(t2['args'][0]) and t2['args'][0]['l'] in tl]
+                C.check(not repl, RI, '%s|reference_origins.entry|replaces' % b.short, 'reference_origins.entry(..).insert(..) replaces the referrer list stored under the key', b.where(repl[0]) if repl else '')
+                continue
+            if o['how'] != 'direct' or o['op'] != 'insert':
+                continue
+            n += 1
+            t = o['term']
+            # (a) the returned Option is consumed, or (b) the insert is on the None edge of a lookup (get_mut) of the same map
+            used = False
+            taint = forward_taint(b, {t['dst']['l']}, through_refs=True) if not t['dst']['p'] else set()
+            for pos2, role, pl, st2 in iter_uses(b):
+                if is_local_op(pl) and pl['l'] in taint and role not in ('def', 'calldst', 'drop') and not (role.startswith('use:') and st2['k'] == 'assign' and st2['dst']['l'] in taint):
+                    used = True
+            guarded = False
+            for g in ops:
+                if g['op'] == 'get_mut' and b.pos_dominates(g['pos'], o['pos']):
+                    gt = g['term']
+                    # switch on discriminant of the result: insert must be unreachable from the Some edge
+                    tt = forward_taint(b, {gt['dst']['l']}, through_refs=False)
+                    for pos3, s3 in b.iter_stmts():
+                        if s3['k'] == 'assign' and s3['rv']['k'] == 'discr' and s3['rv']['pl']['l'] in tt:
+                            sw = b.blocks[pos3[0]]['term']
+                            if sw['k'] == 'switch':
+                                d = dict(sw['ts'])
+                                some_t = d.get('1')
+                                if some_t is not None and o['pos'] not in b.reach_from((some_t, 0), include_start=True, avoid=E.loops_containing(b, [g['pos']])):
+                                    guarded = True
+            C.check(used or guarded, RI, '%s|reference_origins.insert|unguarded' % b.short,
+                    'reference_origins.insert() under a key that may already hold a referrer list: the existing list (e.g. dangling references that already name the new path) is silently dropped', b.where(o['pos']),
+                    sample={'fn': b.short, 'idiom': 'insert only on the failed-lookup edge, or merge with the previous list'})
+    C.floor(RI, n, 3)
+
+    # ---- DEV-remove / bulk overwrite -----------------------------------------------------------------
+    (C.rule if RR.startswith('C05') else (lambda *a_, **k_: None))(RR, 'a referrer list leaves reference_origins only (a) to be stored again under another key (the Option returned by remove() is consumed), or (b) when it was found empty (the remove is behind a test of its length), or (c) with the whole model (clear in remove_file); '
+           'HashMap::extend / append / retain / drain on the map are not used (extend silently replaces the list of every key that already exists)')
+    nrem = 0
+    for b in sorted(P.bodies.values(), key=lambda x: x.short):
+        if b.crate != 'autosar_data':
+            continue
+        for o in E.reforig_ops(b):
+            if o['how'] != 'direct':
+                continue
+            if o['op'] in ('extend', 'append', 'retain', 'drain', 'retain_mut'):
+                C.fail(RR, '%s|reference_origins.%s' % (b.short, o['op']), 'reference_origins.%s() in %s: a bulk operation on the referrer map replaces / drops the lists of keys that already exist (references loaded earlier are in no list afterwards)' % (o['op'], b.short), b.where(o['pos']))
+                continue
+            if o['op'] == 'clear':
+                C.check(b.short == 'AutosarModel::remove_file', RR, '%s|reference_origins.clear' % b.short, 'the referrer map is cleared in %s' % b.short, b.where(o['pos']))
+                continue
+            if o['op'] not in ('remove', 'remove_entry', 'swap_remove', 'shift_remove'):
+                continue
+            nrem += 1
+            t = o['term']
+            used = False
+            taint = forward_taint(b, {t['dst']['l']}, through_refs=True) if not t['dst']['p'] else set()
+            for pos2, s2 in b.iter_stmts():
+                if s2['k'] == 'assign' and s2['rv']['k'] == 'discr' and s2['rv']['pl']['l'] in taint:
+                    used = True     # `if let Some(list) = map.remove(..)`
+            for pos2, role, pl, st2 in iter_uses(b):
+                if is_local_op(pl) and pl['l'] in taint and role.startswith('arg'):
+                    used = True
+            # (b) behind an emptiness test of the list: a dominating comparison with 0 / is_empty whose operand derives from the list under this map
+            empt = False
+            for pos2, s2 in b.iter_stmts():
+                if s2['k'] == 'assign' and s2['rv']['k'] == 'bin' and s2['rv']['op'] in ('Eq', 'Ne') and b.pos_dominates(pos2, o['pos']):
+                    from flow import const_val
+                    if any(str(const_val(x)).startswith('0') for x in (s2['rv']['a'], s2['rv']['b'])):
+                        empt = True
+            for q in calls(b, r'Vec::<T, A>::is_empty$|::is_empty$'):
+                if b.pos_dominates(q, o['pos']):
+                    empt = True
+            # a flag that was set from is_empty()/len() and is tested right before the remove
+            from c07 import all_sources
+            from pairing import iteration_start
+            for q, tt in b.iter_terms():
+                if tt['k'] == 'switch' and is_local_op(tt['d']) and set(dict(tt['ts']).keys()) == {'0'}:
+                    nm_, cs_, _k = all_sources(b, tt['d'], depth=8)
+                    if any(c.endswith('::is_empty') or c.endswith('::len') for c in cs_):
+                        if must_pass(b, iteration_start(b, o['pos']), [o['pos']], through=(), avoid_edges={(q[0], tt['else'])}):
+                            empt = True
+            C.check(used or empt, RR, '%s|reference_origins.remove|list-discarded' % b.short, 'reference_origins.remove() in %s throws a referrer list away that may still hold references (its result is not stored again and it was not found empty): '
+                    'the references are still in the model but in no list, get_references_to() and check_references() miss them' % b.short, b.where(o['pos']), sample={'fn': b.short, 'remove_result_consumed': used, 'behind_emptiness_test': empt})
+    C.floor(RR + '.removes', nrem, 4)
+
+
+
 def run(ctx):
     C = Check('C05', ctx['tier'], 'other', ctx['seed'])
     P = Program(ctx['facts'])
@@ -204,100 +302,7 @@ def run(ctx):
     rf = P.get('AutosarModel::remove_file')
     C.check(len(ro_positions(rf, {'clear'})) == 1, 'C05-PAIR-origins', 'remove_file|clears-map', 'remove_file no longer clears reference_origins when the model becomes empty')
 
-    # ---- DEV-insert -------------------------------------------------------------------------------
-    n = 0
-    for b in sorted(P.bodies.values(), key=lambda x: x.short):
-        if b.crate != 'autosar_data':
-            continue
-        ops = E.reforig_ops(b)
-        for o in ops:
-            if o['how'] == 'direct' and o['op'] == 'entry':
-                # entry(k).or_default() / or_insert_with(..) keep an existing list; Entry::insert / insert_entry replace it
-                n += 1
-                tl = forward_taint(b, {o['term']['dst']['l']}, through_refs=True)
-                repl = [p2 for p2, t2 in b.iter_calls() if call_matches(t2, r'Entry<.*>::(insert|insert_entry)$|Entry::<.*>::(insert|insert_entry)$') and t2['args'] and is_local_op(t2['args'][0]) and t2['args'][0]['l'] in tl]
-                C.check(not repl, 'C05-DEV-insert', '%s|reference_origins.entry|replaces' % b.short, 'reference_origins.entry(..).insert(..) replaces the referrer list stored under the key', b.where(repl[0]) if repl else '')
-                continue
-            if o['how'] != 'direct' or o['op'] != 'insert':
-                continue
-            n += 1
-            t = o['term']
-            # (a) the returned Option is consumed, or (b) the insert is on the None edge of a lookup (get_mut) of the same map
-            used = False
-            taint = forward_taint(b, {t['dst']['l']}, through_refs=True) if not t['dst']['p'] else set()
-            for pos2, role, pl, st2 in iter_uses(b):
-                if is_local_op(pl) and pl['l'] in taint and role not in ('def', 'calldst', 'drop') and not (role.startswith('use:') and st2['k'] == 'assign' and st2['dst']['l'] in taint):
-                    used = True
-            guarded = False
-            for g in ops:
-                if g['op'] == 'get_mut' and b.pos_dominates(g['pos'], o['pos']):
-                    gt = g['term']
-                    # switch on discriminant of the result: insert must be unreachable from the Some edge
-                    tt = forward_taint(b, {gt['dst']['l']}, through_refs=False)
-                    for pos3, s3 in b.iter_stmts():
-                        if s3['k'] == 'assign' and s3['rv']['k'] == 'discr' and s3['rv']['pl']['l'] in tt:
-                            sw = b.blocks[pos3[0]]['term']
-                            if sw['k'] == 'switch':
-                                d = dict(sw['ts'])
-                                some_t = d.get('1')
-                                if some_t is not None and o['pos'] not in b.reach_from((some_t, 0), include_start=True, avoid=E.loops_containing(b, [g['pos']])):
-                                    guarded = True
-            C.check(used or guarded, 'C05-DEV-insert', '%s|reference_origins.insert|unguarded' % b.short,
-                    'reference_origins.insert() under a key that may already hold a referrer list: the existing list (e.g. dangling references that already name the new path) is silently dropped', b.where(o['pos']),
-                    sample={'fn': b.short, 'idiom': 'insert only on the failed-lookup edge, or merge with the previous list'})
-    C.floor('C05-DEV-insert', n, 3)
-
-    # ---- DEV-remove / bulk overwrite -----------------------------------------------------------------
-    C.rule('C05-DEV-remove', 'a referrer list leaves reference_origins only (a) to be stored again under another key (the Option returned by remove() is consumed), or (b) when it was found empty (the remove is behind a test of its length), or (c) with the whole model (clear in remove_file); '
-           'HashMap::extend / append / retain / drain on the map are not used (extend silently replaces the list of every key that already exists)')
-    nrem = 0
-    for b in sorted(P.bodies.values(), key=lambda x: x.short):
-        if b.crate != 'autosar_data':
-            continue
-        for o in E.reforig_ops(b):
-            if o['how'] != 'direct':
-                continue
-            if o['op'] in ('extend', 'append', 'retain', 'drain', 'retain_mut'):
-                C.fail('C05-DEV-remove', '%s|reference_origins.%s' % (b.short, o['op']), 'reference_origins.%s() in %s: a bulk operation on the referrer map replaces / drops the lists of keys that already exist (references loaded earlier are in no list afterwards)' % (o['op'], b.short), b.where(o['pos']))
-                continue
-            if o['op'] == 'clear':
-                C.check(b.short == 'AutosarModel::remove_file', 'C05-DEV-remove', '%s|reference_origins.clear' % b.short, 'the referrer map is cleared in %s' % b.short, b.where(o['pos']))
-                continue
-            if o['op'] not in ('remove', 'remove_entry', 'swap_remove', 'shift_remove'):
-                continue
-            nrem += 1
-            t = o['term']
-            used = False
-            taint = forward_taint(b, {t['dst']['l']}, through_refs=True) if not t['dst']['p'] else set()
-            for pos2, s2 in b.iter_stmts():
-                if s2['k'] == 'assign' and s2['rv']['k'] == 'discr' and s2['rv']['pl']['l'] in taint:
-                    used = True     # `if let Some(list) = map.remove(..)`
-            for pos2, role, pl, st2 in iter_uses(b):
-                if is_local_op(pl) and pl['l'] in taint and role.startswith('arg'):
-                    used = True
-            # (b) behind an emptiness test of the list: a dominating comparison with 0 / is_empty whose operand derives from the list under this map
-            empt = False
-            for pos2, s2 in b.iter_stmts():
-                if s2['k'] == 'assign' and s2['rv']['k'] == 'bin' and s2['rv']['op'] in ('Eq', 'Ne') and b.pos_dominates(pos2, o['pos']):
-                    from flow import const_val
-                    if any(str(const_val(x)).startswith('0') for x in (s2['rv']['a'], s2['rv']['b'])):
-                        empt = True
-            for q in calls(b, r'Vec::<T, A>::is_empty$|::is_empty$'):
-                if b.pos_dominates(q, o['pos']):
-                    empt = True
-            # a flag that was set from is_empty()/len() and is tested right before the remove
-            from c07 import all_sources
-            from pairing import iteration_start
-            for q, tt in b.iter_terms():
-                if tt['k'] == 'switch' and is_local_op(tt['d']) and set(dict(tt['ts']).keys()) == {'0'}:
-                    nm_, cs_, _k = all_sources(b, tt['d'], depth=8)
-                    if any(c.endswith('::is_empty') or c.endswith('::len') for c in cs_):
-                        if must_pass(b, iteration_start(b, o['pos']), [o['pos']], through=(), avoid_edges={(q[0], tt['else'])}):
-                            empt = True
-            C.check(used or empt, 'C05-DEV-remove', '%s|reference_origins.remove|list-discarded' % b.short, 'reference_origins.remove() in %s throws a referrer list away that may still hold references (its result is not stored again and it was not found empty): '
-                    'the references are still in the model but in no list, get_references_to() and check_references() miss them' % b.short, b.where(o['pos']), sample={'fn': b.short, 'remove_result_consumed': used, 'behind_emptiness_test': empt})
-    C.floor('C05-DEV-remove.removes', nrem, 4)
-
+    dev_map_rules(C, P, 'C05-DEV-insert', 'C05-DEV-remove')
     # ---- SIB-report --------------------------------------------------------------------------------
     cr = P.get('AutosarModel::check_references')
     gt = P.get('Element::get_reference_target')
